@@ -35,6 +35,9 @@ type Case struct {
 	DataEOF    bool  `json:"data_with_eof"`       // the last read returns its data together with io.EOF
 	ReadErrAt  int   `json:"read_err_at"`         // inject a read error once this many bytes were delivered (-1: no)
 	CbErrAt    int   `json:"cb_err_at"`           // callback number that returns an error (-1: no)
+	// ReadErrOnce: the reader reports the injected error once and delivers the rest of the stream if it is asked again
+	// (a timeout-like error); Parse must return the error all the same
+	ReadErrOnce bool `json:"read_err_once,omitempty"`
 	InitBuf    int   `json:"init_buf"`            // initial buffer size
 	WellFormed bool  `json:"well_formed"`
 }
@@ -243,6 +246,7 @@ func genCase(t *rapid.T) Case {
 	switch rapid.IntRange(0, 9).Draw(t, "fault") {
 	case 0:
 		c.ReadErrAt = rapid.IntRange(0, n).Draw(t, "readerr")
+		c.ReadErrOnce = rapid.Bool().Draw(t, "readerr-once")
 	case 1:
 		c.CbErrAt = rapid.IntRange(0, 3).Draw(t, "cberr")
 	}
@@ -259,6 +263,8 @@ type partReader struct {
 	i         int
 	dataEOF   bool
 	errAt     int
+	errOnce   bool
+	errGiven  bool
 	readCalls int
 	boundaryInHeader bool
 	headerOffsets    map[int]bool
@@ -269,7 +275,8 @@ func (r *partReader) Read(p []byte) (int, error) {
 	if r.readCalls > 10_000_000 {
 		panic("reader called 10^7 times: parser does not terminate")
 	}
-	if r.errAt >= 0 && r.pos >= r.errAt {
+	if r.errAt >= 0 && r.pos >= r.errAt && !(r.errOnce && r.errGiven) {
+		r.errGiven = true
 		return 0, errInjected
 	}
 	if r.pos >= len(r.data) {
@@ -283,7 +290,7 @@ func (r *partReader) Read(p []byte) (int, error) {
 	if n > len(r.data)-r.pos {
 		n = len(r.data) - r.pos
 	}
-	if r.errAt >= 0 && r.pos+n > r.errAt {
+	if r.errAt >= 0 && r.pos+n > r.errAt && !r.errGiven {
 		n = r.errAt - r.pos
 	}
 	copy(p, r.data[r.pos:r.pos+n])
@@ -348,7 +355,7 @@ type info struct {
 
 func runParser(c Case, s []byte) (got []cbRec, err error, rd *partReader, bufLen int, elapsed time.Duration) {
 	_, _, hdr := model(s)
-	rd = &partReader{data: s, reads: c.Reads, dataEOF: c.DataEOF, errAt: c.ReadErrAt, headerOffsets: hdr}
+	rd = &partReader{data: s, reads: c.Reads, dataEOF: c.DataEOF, errAt: c.ReadErrAt, errOnce: c.ReadErrOnce, headerOffsets: hdr}
 	calls := 0
 	cb := func(cd chunkparser.ChunkData) error {
 		if calls == c.CbErrAt {
